@@ -1021,3 +1021,74 @@ package template
 //@     invariant editkeys: EDITKEYS(e)
 //@     invariant onlymaps: ONLYMAPS(e)
 //@     invariant treesfresh: TREESFRESH()
+
+//@ func (t *Template) ParseFromTrustedTemplate(tmpl TrustedTemplate) (r *Template, err error)
+//@   serves C07
+//@   requires !isnil(t) && !isnil(t.nameSpace) && !held(t.nameSpace.mu)
+//@   option locks true
+//@   option modifies Template.escapeErr Template.Tree Template.text TT_Template.Tree nameSpace.escaped nameSpace.set map[seq]ref:Template#dom map[seq]ref:Template#val
+//@   ensures frozen: old(t.nameSpace.escaped) ==> !isnil(err) && isnil(r) && nochange()
+
+//@ func (t *Template) ParseFiles(filenames ...stringConstant) (r *Template, err error)
+//@   serves C07
+//@   requires !isnil(t) && !isnil(t.nameSpace) && !held(t.nameSpace.mu)
+//@   option locks true
+//@   option modifies Template.escapeErr Template.Tree Template.text TT_Template.Tree nameSpace.escaped nameSpace.set map[seq]ref:Template#dom map[seq]ref:Template#val
+//@   ensures frozen: old(t.nameSpace.escaped) ==> !isnil(err) && isnil(r) && nochange()
+
+//@ func (t *Template) ParseFilesFromTrustedSources(filenames ...TrustedSource) (r *Template, err error)
+//@   serves C07
+//@   requires !isnil(t) && !isnil(t.nameSpace) && !held(t.nameSpace.mu)
+//@   option locks true
+//@   option modifies Template.escapeErr Template.Tree Template.text TT_Template.Tree nameSpace.escaped nameSpace.set map[seq]ref:Template#dom map[seq]ref:Template#val
+//@   ensures frozen: old(t.nameSpace.escaped) ==> !isnil(err) && isnil(r) && nochange()
+
+//@ func (t *Template) ParseGlob(pattern stringConstant) (r *Template, err error)
+//@   serves C07
+//@   requires !isnil(t) && !isnil(t.nameSpace) && !held(t.nameSpace.mu)
+//@   option locks true
+//@   option modifies Template.escapeErr Template.Tree Template.text TT_Template.Tree nameSpace.escaped nameSpace.set map[seq]ref:Template#dom map[seq]ref:Template#val
+//@   ensures frozen: old(t.nameSpace.escaped) ==> !isnil(err) && isnil(r) && nochange()
+
+//@ func (t *Template) ParseGlobFromTrustedSource(pattern TrustedSource) (r *Template, err error)
+//@   serves C07
+//@   requires !isnil(t) && !isnil(t.nameSpace) && !held(t.nameSpace.mu)
+//@   option locks true
+//@   option modifies Template.escapeErr Template.Tree Template.text TT_Template.Tree nameSpace.escaped nameSpace.set map[seq]ref:Template#dom map[seq]ref:Template#val
+//@   ensures frozen: old(t.nameSpace.escaped) ==> !isnil(err) && isnil(r) && nochange()
+
+//@ func (t TrustedTemplate) String() (r string)
+//@   serves C07
+//@   ensures same: sameview(r, t.tmpl)
+
+//@ func stringConstantsToStrings(strs []stringConstant) (r []string)
+//@   serves C07
+//@   ensures count: len(r) == len(strs)
+//@   loop 1
+//@     invariant len(ret) == rangeidx
+
+//@ func trustedSourcesToStrings(paths []TrustedSource) (r []string)
+//@   serves C07
+//@   ensures count: len(r) == len(paths)
+//@   loop 1
+//@     invariant len(ret) == rangeidx
+
+//@ func readFileFS(fsys fs.FS) (r func(string) (string, []byte, error))
+//@   serves C07
+//@   option closures unverified
+
+//@ func parseFS(t *Template, fsys fs.FS, patterns []string) (r *Template, err error)
+//@   serves C07
+//@   requires !isnil(t) ==> !isnil(t.nameSpace) && !held(t.nameSpace.mu)
+//@   option locks true
+//@   option modifies Template.escapeErr Template.Tree Template.text TT_Template.Tree nameSpace.escaped nameSpace.set map[seq]ref:Template#dom map[seq]ref:Template#val
+//@   ensures frozen: !isnil(t) && old(t.nameSpace.escaped) ==> !isnil(err) && isnil(r) && nochange()
+//@   loop 1
+//@     invariant unchanged: nochange()
+
+//@ func (t *Template) ParseFS(tfs TrustedFS, patterns ...string) (r *Template, err error)
+//@   serves C07
+//@   requires !isnil(t) && !isnil(t.nameSpace) && !held(t.nameSpace.mu)
+//@   option locks true
+//@   option modifies Template.escapeErr Template.Tree Template.text TT_Template.Tree nameSpace.escaped nameSpace.set map[seq]ref:Template#dom map[seq]ref:Template#val
+//@   ensures frozen: old(t.nameSpace.escaped) ==> !isnil(err) && isnil(r) && nochange()
